@@ -4,13 +4,6 @@
   notions of Spec/Unicode.lean; `convert` / `stringSetUtf8` are the model of the code.
 -/
 import StVerif.Lemmas.UtfString
-import StVerif.Lemmas.KernelBridge
-import StVerif.Lemmas.KernelLoops
-import StVerif.Lemmas.KernelLoopsUtf32
-import StVerif.Lemmas.KernelLoopsUtf8
-import StVerif.Lemmas.KernelLoopsMisc
-import StVerif.Lemmas.KernelLoopsValidate
-import StVerif.Lemmas.KernelLoopsCleanup
 
 namespace StVerif.Props.C02
 open StVerif StVerif.Utf StVerif.Generated StVerif.Lemmas.Utf
@@ -254,42 +247,5 @@ example : wellFormedByDesign .utf8 [0x41, 0xC0, 0x80, 0xED, 0xA0, 0x80, 0xF4, 0x
 example : wellFormedByDesign .utf8 [0x41, 0x80] = false ∧ wellFormedByDesign .utf16 [0xDC00, 0xD800] = true ∧
     wellFormedByDesign .utf16 [0xD800] = false ∧ wellFormedByDesign .utf32 [0x110000] = false := by decide
 example : cleanupUtf8 [0x41, 0xE2, 0x82, 0x42, 0xFF] = [0x41, 0xEF, 0xBF, 0xBD, 0xEF, 0xBF, 0xBD, 0x42, 0xEF, 0xBF, 0xBD] := by decide
-
-/-! ### tie to the source (tools/gen_kernels.py) -/
-
-/-- the decoders the validation modes are built on, as translated from the C++ on every run, are the model's decoders
-    (malformed units included: an error is the flagged value `error_char` builds), and `char_error` reads the flag back -/
-theorem kernels_are_model (mem : List Nat) (ch : Nat) (hch : ch < 2 ^ 31) :
-    KernelBridge.stepLoop Kernels.extract_utf8 mem (mem.length + 1) 0 = .ok (decodeUtf8 mem) ∧
-    KernelBridge.stepLoop Kernels.extract_utf16 mem (mem.length + 1) 0 = .ok (decodeUtf16 mem) ∧
-    Kernels.char_error ch = .ok ((charError ch : Nat) : Int) :=
-  ⟨KernelBridge.utf8_loop_eq mem, KernelBridge.utf16_loop_eq mem, KernelBridge.char_error_eq ch hch⟩
-
-open StVerif.KernelBridge in
-/-- the filling passes of include/st_utf_conv_priv.h as translated from the C++ on every run (tools/gen_kernels.py) are
-    the model's `fill` over the model's decoder, in every mode (UTF-16 sources: units below 2^16), and the translated
-    `validate_utf8` is the model's validator: the theorems of this file are about what the code says now -/
-theorem conversion_loops_are_model (mem : List Nat) (m : Mode) (subst : Bool) (fuel : Nat) (hf : mem.length < fuel) :
-    Kernels.utf16_convert_from_utf8 mem fuel 0 mem.length (modeCode m) = fillResult (fill (stepCh .utf8 .utf16 m subst) (decode .utf8 mem)) ∧
-    Kernels.utf32_convert_from_utf8 mem fuel 0 mem.length (modeCode m) = fillResult (fill (stepCh .utf8 .utf32 m subst) (decode .utf8 mem)) ∧
-    Kernels.utf8_convert_from_utf32 mem fuel 0 mem.length (modeCode m) = fillResult (fill (stepCh .utf32 .utf8 m subst) (decode .utf32 mem)) ∧
-    Kernels.utf16_convert_from_utf32 mem fuel 0 mem.length (modeCode m) = fillResult (fill (stepCh .utf32 .utf16 m subst) (decode .utf32 mem)) ∧
-    ((∀ u ∈ mem, u < 65536) →
-      Kernels.utf8_convert_from_utf16 mem fuel 0 mem.length (modeCode m) = fillResult (fill (stepCh .utf16 .utf8 m subst) (decode .utf16 mem)) ∧
-      Kernels.utf32_convert_from_utf16 mem fuel 0 mem.length (modeCode m) = fillResult (fill (stepCh .utf16 .utf32 m subst) (decode .utf16 mem))) ∧
-    Kernels.validate_utf8 mem fuel 0 mem.length = .ok ((validateUtf8 mem : Nat) : Int) :=
-  ⟨utf16_convert_from_utf8_eq mem m subst fuel hf, utf32_convert_from_utf8_eq mem m subst fuel hf,
-   utf8_convert_from_utf32_eq mem m subst fuel hf, utf16_convert_from_utf32_eq mem m subst fuel hf,
-   fun hu => ⟨utf8_convert_from_utf16_eq mem m subst hu fuel hf, utf32_convert_from_utf16_eq mem m subst hu fuel hf⟩,
-   validate_utf8_eq mem fuel hf⟩
-
-open StVerif.KernelBridge in
-/-- `cleanup_utf8` (the repairer behind `substitute_invalid` for `ST::string`) as translated from the C++ on every run:
-    both passes complete without a load outside the source, the sizing pass (null output) returns exactly the number of
-    units the filling pass stores, and what is stored is the model's `cleanupUtf8` - for every source below 2^62 bytes -/
-theorem translated_repairer_is_model (mem : List Nat) (fuel : Nat) (hf : mem.length < fuel) (hl : 3 * mem.length < 2 ^ 64) :
-    Kernels.cleanup_utf8 mem fuel false 0 mem.length = .ok ((cleanupUtf8 mem).length, cleanupUtf8 mem) ∧
-    Kernels.cleanup_utf8 mem fuel true 0 mem.length = .ok ((cleanupUtf8 mem).length, []) :=
-  cleanup_utf8_eq mem fuel hf hl
 
 end StVerif.Props.C02
